@@ -215,6 +215,83 @@ func streamBigIndexed(w *W, rng *rand.Rand, n int) {
 	}
 }
 
+// shapes of 15..24 points inside a rectangular hole: strictly inside, resting on the rim with one
+// vertex (their box still inside the closed hole), or crossing it — ringContainsRing's bounding-box
+// shortcut (16 points and more) on one side of the threshold and on the other
+func streamLongInHole(w *W, rng *rand.Rand, n int) {
+	for it := 0; it < n; it++ {
+		hx0, hy0 := 10+rng.Int63n(10), 10+rng.Int63n(10)
+		hw, hh := 40+rng.Int63n(20), 20+rng.Int63n(20)
+		hx1, hy1 := hx0+hw, hy0+hh
+		ext := []ipt{{0, 0}, {hx1 + 20, 0}, {hx1 + 20, hy1 + 20}, {0, hy1 + 20}, {0, 0}}
+		hole := []ipt{{hx0, hy0}, {hx1, hy0}, {hx1, hy1}, {hx0, hy1}, {hx0, hy0}}
+		if rng.Intn(3) == 0 { // a hexagonal (convex, not rectangular) hole
+			hole = []ipt{{hx0, hy0}, {hx1, hy0}, {hx1 + 5, (hy0 + hy1) / 2}, {hx1, hy1}, {hx0, hy1}, {hx0 - 5, (hy0 + hy1) / 2}, {hx0, hy0}}
+		}
+		A := shp{kind: 3, rings: [][]ipt{ext, hole}}
+		for _, np := range []int{15, 16, 17, 24} {
+			mode := rng.Intn(4) // 0 strictly inside, 1 one vertex on the bottom rim, 2 one vertex on the left rim, 3 one vertex outside
+			zig := make([]ipt, np)
+			for i := range zig {
+				x := hx0 + 2 + int64(i)*(hw-4)/int64(np-1)
+				y := hy0 + 3 + int64(i%2)*(hh-6)
+				zig[i] = ipt{x, y}
+			}
+			k := 1 + rng.Intn(np-2)
+			switch mode {
+			case 1:
+				zig[k].y = hy0
+			case 2:
+				zig[0].x = hx0
+			case 3:
+				zig[k].y = hy0 - 2
+			}
+			pairDo(w, rng, A, shp{kind: 2, line: zig}, 0, it%4 == 0)
+			// the same vertices as a polygon: close the zig-zag through a point below its start
+			ring := append(append([]ipt{}, zig...), zig[0])
+			if validPoly([][]ipt{ring}) {
+				pairDo(w, rng, A, shp{kind: 3, rings: [][]ipt{ring}}, 0, false)
+			}
+			w.count("family:long-in-hole")
+		}
+	}
+}
+
+// a flat rectangle whose two ends lie on a line that bends between them, on a straight stretch, or
+// with one end off the line
+func streamFlatRectOnLine(w *W, rng *rand.Rand, n int) {
+	for it := 0; it < n; it++ {
+		x0, y0 := rng.Int63n(20)-10, rng.Int63n(20)-10
+		d := 2 + 2*rng.Int63n(6)
+		var ln []ipt
+		var r [4]int64
+		if rng.Intn(2) == 0 { // horizontal flat rectangle
+			r = [4]int64{x0, y0, x0 + d, y0}
+			switch rng.Intn(3) {
+			case 0: // bent: leaves the rectangle's line between its ends
+				ln = []ipt{{x0, y0}, {x0 + d/2, y0 + 3}, {x0 + d, y0}}
+			case 1: // straight, in two pieces
+				ln = []ipt{{x0 - 1, y0}, {x0 + d/2, y0}, {x0 + d + 1, y0}}
+			default: // bent away after covering only a part
+				ln = []ipt{{x0, y0}, {x0 + d/2, y0}, {x0 + d, y0 + 2}}
+			}
+		} else {
+			r = [4]int64{x0, y0, x0, y0 + d}
+			switch rng.Intn(3) {
+			case 0:
+				ln = []ipt{{x0, y0}, {x0 - 3, y0 + d/2}, {x0, y0 + d}}
+			case 1:
+				ln = []ipt{{x0, y0 - 1}, {x0, y0 + d/2}, {x0, y0 + d + 1}}
+			default:
+				ln = []ipt{{x0, y0}, {x0, y0 + d/2}, {x0 + 2, y0 + d}}
+			}
+		}
+		pairDo(w, rng, shp{kind: 2, line: ln}, shp{kind: 1, rect: r}, 0, false)
+		pairDo(w, rng, shp{kind: 1, rect: r}, shp{kind: 2, line: ln}, 0, false)
+		w.count("family:flat-rect-on-line")
+	}
+}
+
 func streamMultiHole(w *W, rng *rand.Rand, n int) {
 	for it := 0; it < n; it++ {
 		A, _, _, _ := genMultiHole(rng)
